@@ -27,6 +27,30 @@ func bIdent(name string) *ast.Identifier {
 	return &ast.Identifier{Token: tk(token.IDENT, name), Value: name}
 }
 
+// opTk: like tk, but the token may carry leading trivia (a line break marker
+// and/or a comment), as the operator tokens of a tree that a plugin rewrote do.
+// Only operator tokens of binary, assignment and postfix nodes get trivia: the
+// first two are positions where the parser itself records trivia, the third is
+// the one the printer handles specially (it replays the trivia in front of the
+// operand, because a line break before a postfix operator would end the
+// statement).  The pattern is cyclic over these tokens in creation order.
+func (b astBuilder) opTk(t token.Type, lit string) token.Token {
+	tok := tk(t, lit)
+	if len(b.Trivia) > 0 && b.n != nil {
+		switch b.Trivia[*b.n%len(b.Trivia)] {
+		case 1:
+			tok.LeadingComments = []string{" c"}
+		case 2:
+			tok.LeadingComments = []string{""}
+		case 3:
+			tok.LeadingComments = []string{"", " own line", ""}
+		}
+		*b.n++
+	}
+	return tok
+}
+
+
 func callLevel(n *ir.Node) bool {
 	switch n.K {
 	case ir.Ident, ir.Num, ir.Str, ir.Tpl, ir.Bool, ir.Null, ir.Call, ir.Member, ir.Index, ir.Array, ir.Object, ir.Func:
@@ -39,6 +63,32 @@ type astBuilder struct {
 	// GroupLoose wraps operands that are looser than call level in callee and
 	// member-object position into explicit grouping nodes.
 	GroupLoose bool
+	// Trivia: see b.tk (0 = none, 1 = comment, 2 = line break, 3 = blank line + own-line comment)
+	Trivia []int
+	n      *int
+	// postfix nodes on the leftmost spine of a return value: trivia replayed in
+	// front of their operand would put a line break right after `return`
+	noTrivia map[*ir.Node]bool
+}
+
+// returnSpines marks the nodes on the leftmost spine of every return value.
+func returnSpines(root *ir.Node) map[*ir.Node]bool {
+	m := map[*ir.Node]bool{}
+	ir.Walk(root, func(n *ir.Node) {
+		if n.K != ir.Return || len(n.Kids) == 0 || n.Kids[0] == nil {
+			return
+		}
+		for x := n.Kids[0]; x != nil; {
+			m[x] = true
+			switch x.K {
+			case ir.Binary, ir.Assign, ir.Postfix, ir.Call, ir.Member, ir.Index:
+				x = x.Kids[0]
+			default:
+				x = nil
+			}
+		}
+	})
+	return m
 }
 
 func (b astBuilder) group(e ast.Expression) ast.Expression {
@@ -106,14 +156,17 @@ func (b astBuilder) expr(n *ir.Node) ast.Expression {
 	case ir.Unary:
 		return &ast.UnaryExpression{Token: tk(opTok[n.Op], n.Op), Operator: n.Op, Right: b.expr(n.Kids[0])}
 	case ir.Postfix:
-		return &ast.PostfixExpression{Token: tk(opTok[n.Op], n.Op), Left: b.expr(n.Kids[0]), Operator: n.Op}
+		if b.noTrivia[n] {
+			return &ast.PostfixExpression{Token: tk(opTok[n.Op], n.Op), Left: b.expr(n.Kids[0]), Operator: n.Op}
+		}
+		return &ast.PostfixExpression{Token: b.opTk(opTok[n.Op], n.Op), Left: b.expr(n.Kids[0]), Operator: n.Op}
 	case ir.Binary:
-		return &ast.BinaryExpression{Token: tk(opTok[n.Op], n.Op), Left: b.expr(n.Kids[0]), Operator: n.Op, Right: b.expr(n.Kids[1])}
+		return &ast.BinaryExpression{Token: b.opTk(opTok[n.Op], n.Op), Left: b.expr(n.Kids[0]), Operator: n.Op, Right: b.expr(n.Kids[1])}
 	case ir.Assign:
 		if n.Op == "=" {
-			return &ast.AssignmentExpression{Token: tk(token.ASSIGN, "="), Left: b.expr(n.Kids[0]), Value: b.expr(n.Kids[1])}
+			return &ast.AssignmentExpression{Token: b.opTk(token.ASSIGN, "="), Left: b.expr(n.Kids[0]), Value: b.expr(n.Kids[1])}
 		}
-		return &ast.CompoundAssignmentExpression{Token: tk(opTok[n.Op], n.Op), Left: b.expr(n.Kids[0]), Operator: n.Op[:1], Value: b.expr(n.Kids[1])}
+		return &ast.CompoundAssignmentExpression{Token: b.opTk(opTok[n.Op], n.Op), Left: b.expr(n.Kids[0]), Operator: n.Op[:1], Value: b.expr(n.Kids[1])}
 	case ir.Call:
 		c := &ast.CallExpression{Token: tk(token.LPAREN, "("), Function: b.operand(n.Kids[0]), Arguments: []ast.Expression{}}
 		for _, a := range n.Kids[1:] {
